@@ -4,7 +4,7 @@ CONSTANTS
   CandsId = "lo"
   NumChoices <- NC_one
   RunChoices <- RC_small
-  OtherChoices = {"sst", "blank", "fstr"}
+  OtherChoices = {"sst", "blank", "fstr", "fempty"}
   MaxCells = 3
   MaxRun = 3
   MaxIgn = 0
